@@ -153,7 +153,9 @@ def random_plan(seed, idx):
                 k3 = r.choice(KEYS)  # a second SD message in the same datagram
                 second = [["offer", k3[0], k3[1], k3[2], k3[3], r.choice([0, 1, 3, INF_TTL])]]
             b.offer(p, key, r.choice([1, 1, 2, 3, INF_TTL]), ch, extra, second=second, opts=opts)
-            if second is None and r.random() < 0.12:
+            if r.random() < 0.12:
+                b.ops[-1]["port"] = 40001  # a second SD endpoint on that source's host: a source of its own
+            elif second is None and r.random() < 0.12:
                 # a peer that wrapped its session counter long ago (reboot flag clear): its datagrams may be duplicated or
                 # reordered (an equal or lower id follows) and the counter may wrap again (0xFFFF -> 1) - no reboot any of it
                 b.ops[-1]["sess"] = [0, r.choice([1, 2, 2, 3, 5, 0xFFFF, 0xFFFE])]
@@ -164,6 +166,8 @@ def random_plan(seed, idx):
             w = r.random()
             if w < 0.6:
                 b.offer(p, key, r.choice([1, 2, 3, INF_TTL]), ch, opts=opts)
+                if r.random() < 0.15:
+                    b.ops[-1]["port"] = 40001
             elif w < 0.8:
                 b.find(p, ch)
             else:
